@@ -15,7 +15,7 @@
    "answers something other than true" includes non-termination of the real validator on
    cyclic damage (the model's OutOfFuel); the property restricts chain damage to acyclic
    chains.
-   OBLIGATIONS: C14_check_sound C14_damage_rejected_by_check C14_damage_rejected_by_detailed C14_detailed_sound C14_validate_is_detailed C14_try_ops_refuse_on_heap C14_try_ops_refuse_unchanged C14_chain_damage_rejected C14_chain_exact C14_nonvacuous *)
+   OBLIGATIONS: C14_check_sound C14_damage_rejected_by_check C14_damage_rejected_by_detailed C14_detailed_sound C14_validate_is_detailed C14_try_ops_refuse_on_heap C14_try_ops_refuse_unchanged C14_chain_damage_rejected C14_chain_exact C14_nonvacuous C14_legacy_refuted *)
 From BPT Require Import Common.Base Common.AMap Rust.Arena Rust.Tree Rust.Heap Rust.Readers Rust.Run
      Rust.InvDefs Rust.ValidDefs Rust.Damage Rust.ValidSound Rust.ChainExact.
 From Coq Require Import Permutation.
@@ -83,3 +83,7 @@ Import ValidSoundExamples.
 Definition C14_nonvacuous :=
   (ex_valid, ex_valid_detailed, ex_leaf_key, ex_branch_key, ex_pop_val, ex_push_key, ex_pop_child,
    ex_dup_child, ex_trunc, ex_dangling, ex_free_leaf, ex_chain_cut, ex_orphan_leaf, ex_orphan_branch).
+
+From BPT Require Import Legacy.RustLegacy.
+(* the validators as pinned accepted an empty non-root node (repaired in /repo) *)
+Definition C14_legacy_refuted := (d10_refuted, validator_empty_node_refuted).
